@@ -389,7 +389,7 @@ func vfC07Scenarios(thorough bool) []*vfGWScenario {
 	{
 		p2 := []vfPeerCfg{{Name: "a", Proto: "v11", IP: "10.0.0.1"}, {Name: "b", Proto: "v12", IP: "10.0.0.2"}}
 		mk("fanout-join", "d2", p2, []string{"conn:a", "conn:b", "sub:a:t"},
-			[]string{"lpub:t:p1", "lpub:t:p2", "unsub:a:t", "sub:a:t", "sub:b:t", "disc:a", "score:a:-3", "hb", "join:t", "leave:t", "adv:61000", "adddirect:a"}, d+1)
+			[]string{"lpub:t:p1", "lpub:t:p2", "unsub:a:t", "sub:a:t", "sub:b:t", "disc:a", "score:a:-3", "hb", "join:t", "leave:t", "adv:61000", "adddirect:a", "meshpeers:t"}, d+1)
 	}
 	// S4: fanout -> join promotion, two topics
 	if thorough {
